@@ -185,6 +185,26 @@ def reaches(fn, a, b):
     return pb[0] in seen
 
 
+def whole_loop(f, L, cont_match):
+    """loop L visits every element of a container: range-for, or an iterator that starts at begin() of a container accepted by
+    cont_match(f, call) and runs while it differs from (or is below) end() of it, with no early leave"""
+    n_ = f.N(L)
+    if n_['k'] == 'CXXForRangeStmt':
+        return not [j for j in f.walk(n_['body']) if f.N(j)['k'] in ('BreakStmt', 'ReturnStmt', 'GotoStmt')]
+    if n_.get('cond', -1) in (None, -1):
+        return False
+    cn_ = f.N(f.strip(n_['cond']))
+    op_ok = (cn_['k'] in ('CXXOperatorCallExpr', 'BinaryOperator') and cn_.get('op') in ('!=', '<')) or \
+            (cn_['k'] == 'UnaryOperator' and cn_.get('op') == '!' and f.N(f.strip(cn_['ch'][0])).get('op') == '==')
+    iv = [r for r in f.subtree_refs(n_['cond']) if r.startswith('v:')]
+    vals = [v_ for r in iv for (d_, v_) in f.defs_of_var(r) if v_ is not None]
+    ends = [j for j in f.calls(n_['cond']) if short_of(f.bcallee(j) or '') == 'end' and cont_match(f, j)] + \
+           [j for v_ in vals for j in f.calls(v_) if short_of(f.bcallee(j) or '') == 'end' and cont_match(f, j)]
+    begins = [j for v_ in vals for j in f.calls(v_) if short_of(f.bcallee(j) or '') == 'begin' and cont_match(f, j)]
+    esc = [j for j in f.walk(n_['body']) if f.N(j)['k'] in ('BreakStmt', 'ReturnStmt', 'GotoStmt', 'ContinueStmt')]
+    return op_ok and bool(ends) and bool(begins) and not esc
+
+
 def truth_gate(fn, is_expr, want):
     """edges on which the boolean expression recognised by is_expr(node) is known to be `want`: the expression itself as a
     condition (also under `!`, which cond_facts removes), or compared with a boolean / 0 / 1 literal"""
